@@ -101,6 +101,13 @@ CHECKS = {
         note="The step budget (150 internal events per run_to_completion; the unchanged tree needs <=14) is divergence detection, not a complexity proof. Calls whose event and state are fully "
              "concrete run natively. Outside: wait-free loops (excluded by the property), faults in library flows.",
         ref="4/C10"),
+    "C14": dict(
+        text="For 15 catalogue programs over {user, bot, set, if/else (nested, no else, and/not), while with counter, break, continue, do subflow (with user turns, called twice, finishing "
+             "immediately), execute with/without result}, symbolic initial context (x 0..3, y 0..1), symbolic action results (0..2) and a symbolic choice at every user turn between following "
+             "the flow and an unrelated intent, every path of the real compute_next_steps/compute_next_state/slide decides, after every event of dialogs with 6 (thorough 9) decision points, "
+             "exactly the next statement given by a reference interpreter of the structured program; the decision on a used flow_configs object equals the decision on a fresh copy.",
+        note="Programs are ASTs rendered to Colang 1.0 text and parsed by the real parser once per program (untraced). Outside: competing intents, several dialog flows, priorities, when/else when.",
+        ref="4/C14"),
 }
 
 NOT_APPLICABLE = {
